@@ -357,6 +357,10 @@ def build(ops):
                                                        % (n_inside - len(b.statements)))
                     del info["guards"][len(b.statements):]
                 continue
+            elif k == "preview":
+                # the phase built so far is asked for (to print or inspect it) while the builder stays in use
+                b.as_execution_phase("ph")
+                continue
             elif k == "reserve":
                 # temporaries allocated up front: the name is handed out now and used only later (as "$k")
                 name = b.fresh_var_name(op[1])
@@ -400,6 +404,12 @@ def build(ops):
         raise OutOfDomain("builder rejects the program: %s" % ex)
     info["builder"] = b
     info["stmts"] = list(b.statements)
+    # what the builder hands over at the end is a phase holding every statement written
+    final_ids = sorted(st.id for st in b.as_execution_phase("ph").statements)
+    if final_ids != sorted(st.id for st in b.statements):
+        missing = sorted(set(st.id for st in b.statements) - set(final_ids))
+        info.setdefault("lost", []).append("as_execution_phase returns a phase without the statements %s that were written "
+                                           "(the phase had been asked for once before)" % missing)
     info["used"] = used
     return info
 
@@ -996,6 +1006,15 @@ def bounded(payload):
             ops = [["assign", "u", ["+", "x", 1]], ["abandon", copy.deepcopy(inner)]] + copy.deepcopy(tail)
             run({"ops": ops, "ctx": SMALL_CTX}, "exhaustive_programs")
             parts["abandoned_with_block_programs"] = parts.get("abandoned_with_block_programs", 0) + 1
+
+    # the phase is asked for part-way (a preview), building goes on, and it is asked for again at the end
+    for head in ([["assign", "<state>y", ["+", "<state>y", 1]], ["yield", "<state>y", "<t>"]], [["assign", "u", ["+", "x", 1]]], []):
+        for tail in ([["assign", "<state>y", ["*", "<state>y", 10]], ["yield", "<state>y", "<t>"]],
+                     [["assign", "z", ["+", "<state>y", "x"]]],
+                     [["if", ["cmp", ">", "x", 0], [["assign", "z", "<state>y"]], [["assign", "z", 0]]]]):
+            ops = copy.deepcopy(head) + [["preview"]] + copy.deepcopy(tail)
+            run({"ops": ops, "ctx": SMALL_CTX}, "exhaustive_programs")
+            parts["previewed_phase_programs"] = parts.get("previewed_phase_programs", 0) + 1
 
     pool = small_pool()
     sub = [pool[k] for k in SUBPOOL]
